@@ -91,8 +91,12 @@ func candidates(sc *Scenario) []func() *Scenario {
 		}
 	}
 	// variants (keep variant 0, the comparison base)
-	if len(sc.Variants) > 2 {
-		for vi := len(sc.Variants) - 1; vi >= 1; vi-- {
+	minVariants, firstDroppable := 2, 1
+	if sc.Kind == "history" {
+		minVariants, firstDroppable = 1, 0 // independent histories sharing a setup
+	}
+	if len(sc.Variants) > minVariants {
+		for vi := len(sc.Variants) - 1; vi >= firstDroppable; vi-- {
 			vi := vi
 			add(func(c *Scenario) bool {
 				c.Variants = append(c.Variants[:vi], c.Variants[vi+1:]...)
